@@ -43,8 +43,10 @@ THEOREMS = ["QExPy.ArrayEdit.C17_pyIndex_iff",
             "QExPy.ArrayEdit.C17_values_errors_run"]
 RULE = ("seeded edit histories (1-15 edits) on initial arrays with no / common / per-element / "
         "relative uncertainties, with or without name and unit: append / insert / delete / item "
-        "assignment with a number, a (value, error) pair, a measurement (own name and unit), a list "
-        "of those or another MeasurementArray, at every valid index incl. negative ones, plus a "
+        "assignment with a number, a (value, error) pair, a measurement (own name and unit; also one "
+        "recorded from repeated readings), a list of those (also empty) or another MeasurementArray, "
+        "at every valid index incl. negative ones; every array an edit started from is read again "
+        "after every later step; plus a "
         "malformed stream (out-of-range indices, negative uncertainties in pairs, non-numeric "
         "operands); after each edit values, uncertainties, unit, array name, element names and "
         "units and the length of the result and of the array the edit started from are read and "
@@ -135,6 +137,11 @@ def gen_item(rng, malformed):
     if r < 0.35:
         t = pick_type(rng, 0.7)
         return ["num", bits(typed(rng, t) if t else gval(rng))] + ([t] if t else [])
+    if r >= 0.9:
+        # a measurement recorded from REPEATED READINGS (q.Measurement([...])): its std (scatter of the
+        # readings) and its error (standard error of the mean) differ, and it is another class of
+        # element object; the pair of the list model is (mean, std/sqrt(n)) by the harness's arithmetic
+        return gen_rep(rng)
     tv, te = pick_type(rng), pick_type(rng)
     v = typed(rng, tv) if tv else gval(rng)
     e = typed(rng, te, nonneg=True) if te else gerr(rng)
@@ -145,8 +152,74 @@ def gen_item(rng, malformed):
     return ["meas", bits(v), bits(e)] + ([[tv, te]] if tv or te else [])
 
 
+def gen_rep(rng):
+    n = rng.randint(2, 5)
+    base, step = gval(rng), rng.choice([1.0, 0.5, 0.25, 0.1, round(rng.uniform(0.01, 2), 2)])
+    rs = [base + step * rng.randint(-3, 3) for _ in range(n)]
+    if len(set(rs)) == 1:
+        rs[0] += step
+    return ["rep", [bits(float(x)) for x in rs]] + ([rng.choice(["ints", "ndarray"])] if
+                                                     rng.random() < 0.3 else [])
+
+
+def rep_pair(it):
+    """(mean, standard error of the mean) of the readings: math.fsum, two-pass"""
+    xs = rep_readings(it)
+    n = len(xs)
+    mu = math.fsum(xs) / n
+    sd = math.sqrt(math.fsum((x - mu) ** 2 for x in xs) / (n - 1))
+    return mu, sd / math.sqrt(n)
+
+
+def rep_readings(it):
+    xs = [unbits(b) for b in it[1]]
+    if len(it) > 2 and it[2] == "ints":
+        xs = [float(int(x)) for x in xs]
+    return xs
+
+
+def has_rep(c):
+    def items(x):
+        return [x[1]] if x[0] == "one" else x[1] if x[0] == "many" and len(x) < 3 else []
+    for e in c["edits"]:
+        its = [e[2]] if e[0] == "set" else items(e[1]) if e[0] == "append" else items(e[2]) if \
+            e[0] == "insert" else []
+        if any(i[0] == "rep" for i in its):
+            return True
+    return False
+
+
+def model_item(it):
+    """the model's vocabulary has no repeated readings: the element is the pair the statement names"""
+    if it[0] == "rep":
+        mu, se = rep_pair(it)
+        return ["meas", bits(mu), bits(se)]
+    return it
+
+
+def model_edit(e):
+    def op(x):
+        if x[0] == "one":
+            return ["one", model_item(x[1])]
+        if x[0] == "many" and len(x) < 3:
+            return ["many", [model_item(i) for i in x[1]]]
+        return x
+    if e[0] == "append":
+        return ["append", op(e[1])]
+    if e[0] == "insert":
+        return ["insert", e[1], op(e[2])] + e[3:]
+    if e[0] == "set":
+        return ["set", e[1], model_item(e[2])] + e[3:]
+    return e
+
+
 def gen_operand(rng, malformed):
     r = rng.random()
+    if rng.random() < 0.06:
+        # DEGENERATE operand: nothing to add (an empty batch of readings) as a list, a tuple-free
+        # ndarray or an empty list again -- the edit is the identity on the elements but must still
+        # give a NEW array (judged by the later history: `earlier`)
+        return rng.choice([["many", []], ["many", []], ["many", [], "ndarray:float64"]])
     if r < 0.55:
         return ["one", gen_item(rng, malformed)]
     if r < 0.8:
@@ -340,6 +413,10 @@ def fmt_item(it):
         return "({}, {})".format(fmt_num(it[1], ts[0]), fmt_num(it[2], ts[1]))
     if it[0] == "meas":
         return "Measurement({}, {}, name='own', unit='s')".format(fmt_num(it[1], ts[0]), fmt_num(it[2], ts[1]))
+    if it[0] == "rep":
+        xs = rep_readings(it)
+        data = repr([int(x) for x in xs]) if "ints" in it[2:] else repr(xs)
+        return "Measurement({}, name='own', unit='s')".format("np.array(" + data + ")" if "ndarray" in it[2:] else data)
     return "'abc'"
 
 
@@ -408,6 +485,11 @@ def mk_item(q, it):
         return (mk_num(it[1], ts[0]), mk_num(it[2], ts[1]))
     if it[0] == "meas":
         return q.Measurement(mk_num(it[1], ts[0]), mk_num(it[2], ts[1]), name="own", unit="s")
+    if it[0] == "rep":
+        import numpy as np
+        xs = rep_readings(it)
+        data = [int(x) for x in xs] if "ints" in it[2:] else np.array(xs) if "ndarray" in it[2:] else xs
+        return q.Measurement(data, name="own", unit="s")
     return "abc"
 
 
@@ -474,6 +556,13 @@ def observe(q, c):
     steps = [{"out": "ok", "arr": read(a)}]
     excs = collections.Counter()
     flog = []
+
+    def snap(x):
+        return {"len": len(x), "values": [repr(fl(v)) for v in x.values], "errors": [repr(fl(v)) for v in x.errors]}
+    # EARLIER ARRAYS: every array an append / insert / delete started from is kept and read again after
+    # every later step of the history (in the list model they are other lists: nothing done to a
+    # descendant reaches them)
+    versions = []
     for k, e in enumerate(c["edits"], 1):
         for f in c.get("faults", {}).get(str(k), []):
             flog.append([k, f, send_fault(q, a, f)])
@@ -495,10 +584,23 @@ def observe(q, c):
         if e[0] != "set" or st != "ok":
             step["source_before"], step["source_after"] = before, after
         if st == "ok":
+            if e[0] != "set":
+                versions.append([len(steps) - 1, a, snap(a)])
             a = b
         else:
             step["exc"] = b
             excs[b] += 1
+        bare_set = e[0] == "set" and st == "ok" and e[2][0] == "num"
+        for ver in versions[-6:]:      # the six most recent ones (keeps long histories linear)
+            now = snap(ver[1])
+            if now != ver[2]:
+                if bare_set:
+                    # documented scope (DESIGN C17 scope note): `b[i] = number` writes the value into the
+                    # element OBJECT, which the arrays derived from one another share; not judged, counted
+                    step["earlier_shared_element"] = True
+                elif "earlier_changed" not in step:
+                    step["earlier_changed"] = {"made_before_step": ver[0] + 1, "before": ver[2], "after": now}
+                ver[2] = now
         step["arr"] = read(a)
         steps.append(step)
     return {"steps": steps, "exceptions": dict(excs), "faults": flog}
@@ -506,12 +608,37 @@ def observe(q, c):
 
 def model_line(c):
     return {"cmd": "c17", "name": c["name"], "unit": UNITS[c["unit"]], "init": c["init"],
-            "edits": c["edits"]}
+            "edits": [model_edit(e) for e in c["edits"]]}
 
 
 # ---------------------------------------------------------------- comparison
 def same_f(a, b):
     return a == b or (isinstance(a, float) and isinstance(b, float) and math.isnan(a) and math.isnan(b))
+
+
+def near_f(a, b):
+    """for histories with a repeated-readings operand: the mean / standard error of the readings are
+    the harness's own (fsum) and agree with a correct library to rounding, not bit for bit"""
+    return same_f(a, b) or (isinstance(a, float) and isinstance(b, float) and
+                            abs(a - b) <= 1e-12 * max(abs(a), abs(b)) + 1e-13 * REP_SCALE[0])
+
+
+REP_SCALE = [0.0]     # largest |reading| of the repeated-readings operands of the case being judged: a
+# mean of readings that cancel (0.0 by numpy's pairwise sum, 2e-17 by fsum) agrees to rounding OF THE READINGS
+
+
+def rep_scale(c):
+    m = 0.0
+
+    def items(x):
+        return [x[1]] if x[0] == "one" else x[1] if x[0] == "many" and len(x) < 3 else []
+    for e in c["edits"]:
+        its = [e[2]] if e[0] == "set" else items(e[1]) if e[0] == "append" else items(e[2]) if \
+            e[0] == "insert" else []
+        for i in its:
+            if i[0] == "rep":
+                m = max([m] + [abs(x) for x in rep_readings(i)])
+    return m
 
 
 def fault_accepted(o):
@@ -524,6 +651,9 @@ def compare(c, o, m):
     inp = describe(c)
     if fault_accepted(o):
         return []
+    same_f = near_f if has_rep(c) else globals()["same_f"]
+    REP_SCALE[0] = rep_scale(c)
+    rs = REP_SCALE[0]
     if "fail" in m:
         return [{"signature": "c17:model-error", "kind": "disagreement", "what": "model driver: " +
                  m["fail"], "input": inp, "case": c}]
@@ -558,6 +688,11 @@ def compare(c, o, m):
             return fail("source-changed", "the array the edit started from changed",
                         impl=si["source_after"], expected=si["source_before"],
                         clause="source array unchanged")
+        if "earlier_changed" in si:
+            return fail("earlier-array-changed", "an array that an earlier append/insert/delete started from "
+                        "changed when its descendant was edited", impl=si["earlier_changed"]["after"],
+                        expected=si["earlier_changed"]["before"], clause="source array unchanged",
+                        oracle="independent", kind="violation")
         ai, am = si["arr"], sm["arr"]
         els = am["elems"]
         if ai["len"] != len(els):
@@ -590,14 +725,16 @@ def compare(c, o, m):
                 return fail("aggregate:" + agg + ":exception", agg + "() raised " + ai[agg])
             for k, field in ((0, "value"), (1, "uncertainty")):
                 v, b = fb(am[agg][k])
-                if not close(ai[agg][k], v, b, slack=256.0):
+                if not close(ai[agg][k], v, b, slack=256.0) and not (
+                        rs and abs(ai[agg][k] - v) <= 1e-12 * rs * max(ai["len"], 1)):
                     return fail("aggregate:{}:{}".format(agg, field), "{}() {} differs from its "
                                 "definition".format(agg, field), impl=ai[agg][k], expected=v, bound=b)
             if ai[agg][2] != am["unit"]:
                 return fail("aggregate:{}:unit".format(agg), agg + "() unit differs", impl=ai[agg][2],
                             expected=am["unit"])
         v, b = fb(am["std"])
-        if isinstance(ai["std"], str) or not close(ai["std"], v, b, slack=256.0):
+        if isinstance(ai["std"], str) or (not close(ai["std"], v, b, slack=256.0) and not (
+                rs and abs(ai["std"] - v) <= 1e-12 * rs * max(ai["len"], 1))):
             return fail("aggregate:std", "std() differs from the sample standard deviation",
                         impl=ai["std"], expected=v, bound=b)
     return []
@@ -609,6 +746,9 @@ def list_reference(c, o):
         return []
     cur = [(unbits(p[0]), unbits(p[1])) for p in c["init"]]
     inp = describe(c)
+    same_f = near_f if has_rep(c) else globals()["same_f"]
+    REP_SCALE[0] = rep_scale(c)
+    rs = REP_SCALE[0]
 
     def pairs_of(x):
         def one(it):
@@ -616,6 +756,8 @@ def list_reference(c, o):
                 return (unbits(it[1]), 0.0)
             if it[0] == "bad" or (it[0] == "pair" and unbits(it[2]) < 0):
                 raise ValueError
+            if it[0] == "rep":
+                return rep_pair(it)
             return (unbits(it[1]), unbits(it[2]))
         if x[0] == "one":
             return [one(x[1])]
@@ -662,6 +804,12 @@ def list_reference(c, o):
             return [{"signature": "c17:list:source-changed:{}".format(e[0]), "what": "source array "
                      "changed by edit {}".format(i), "input": inp, "case": c, "step": i,
                      "oracle": "independent", "kind": "violation"}]
+        if "earlier_changed" in st:
+            return [{"signature": "c17:list:earlier-array-changed:{}".format(e[0]), "what": "an array that an "
+                     "earlier append/insert/delete (step {}) started from changed at edit {}: in the list "
+                     "model it is another list".format(st["earlier_changed"]["made_before_step"], i),
+                     "input": inp, "case": c, "step": i, "impl": st["earlier_changed"]["after"],
+                     "expected": st["earlier_changed"]["before"], "oracle": "independent", "kind": "violation"}]
         a = st["arr"]
         if c["name"] and a["names"] != ["{}_{}".format(c["name"], k) for k in range(a["len"])]:
             return [{"signature": "c17:list:names:{}".format(e[0]), "what": "elements of a named array "
@@ -674,7 +822,7 @@ def list_reference(c, o):
         vals, errs = [p[0] for p in new], [p[1] for p in new]
         n = len(vals)
         s_exp = (math.fsum(vals), math.sqrt(math.fsum(x * x for x in errs)))
-        scale = sum(abs(x) for x in vals) + 1e-300
+        scale = sum(abs(x) for x in vals) + 1e-300 + rs * len(vals)
         if not isinstance(a["sum"], str) and (abs(a["sum"][0] - s_exp[0]) > 1e-12 * scale or
                                               abs(a["sum"][1] - s_exp[1]) > 1e-12 * (s_exp[1] + 1e-300)):
             return [{"signature": "c17:list:sum", "what": "sum() is not sum(x) +/- sqrt(sum(s^2))",
@@ -736,8 +884,17 @@ def run_cases(ctx, cases, ref=False, with_model=True):
             ityp = e[3] if e[0] in ("set", "insert") and len(e) > 3 else e[2] if e[0] == "delete" and len(e) > 2 else None
             if ityp:
                 d["indextype:{}:{}".format(e[0], ityp)] += 1
+            if x is not None and e[0] != "set" and x[0] == "many" and not x[1]:
+                d["operand:empty:{}:{}".format(e[0], "ndarray" if len(x) > 2 else "list")] += 1
+            for it in its:
+                if it[0] == "rep":
+                    d["operand:repeated-readings:{}:{}".format(e[0], (it[2:] or ["floats"])[0])] += 1
+            if st.get("earlier_shared_element"):
+                d["not-judged:earlier-array:shared-element-after-bare-number-set"] += 1
             if st["out"] == "ok":
                 kinds[e[0]] += 1
+        d["earlier-arrays-re-read"] += sum(1 for e, st in zip(c["edits"], o["steps"][1:])
+                                           if e[0] != "set" and st["out"] == "ok")
         for k, v in o.get("exceptions", {}).items():
             d["exception:" + k] += v
         for _, f, out in o.get("faults", []):
